@@ -350,6 +350,7 @@ class Crate:
         # private helper functions are spliced into their callers before any analysis (see inline.py)
         import inline
         if not data.get("_inlined"):
+            self.specialised = inline.specialise_sequence_helpers(data["bodies"]) if data.get("crate") == "zvt" else {}
             self.inlined = inline.inline_crate(data["bodies"])
             self.inlined_async = inline.inline_async(data["bodies"])
         else:
